@@ -27,6 +27,6 @@ UNITS += [(lambda c: (lambda: S.u_views(c)))(c) for c in (C('FPS', 'feature'), C
 UNITS += [lambda: S.u_voronoi_update()]
 RT = True
 TRUSTED = ["vector layer: rows/columns as terms of an uninterpreted sort with symmetric inner product, ||u-v||^2 >= 0, zero vector (no extensionality assumed)",
-           "modular contracts (assumed here, subject of C07): _compute_pi returns one non-negative score per candidate and 0 for zero residual slices while the residual rank is >= k; X_orthogonalizer zeroes the selected slice in its normalising branch and keeps zero slices zero",
+           "modular contracts: X_orthogonalizer zeroes the selected slice in its normalising branch and keeps zero slices zero, _compute_pi returns one non-negative score per candidate (both proved for the real functions under C07); a candidate with a zero residual slice has score 0 while the residual rank is >= k (property of the external singular-vector routine, assumed)",
            "modular contract: pcovr_kernel / pcovr_covariance return a symmetric matrix (called with the configured mixing on the validated data: checked as call-site preconditions)",
            "sklearn validation (check_array/check_X_y/_validate_data) returns the float input unchanged or raises; y must be 1-D for the selectors (2-D y is rejected by _validate_data)"]
